@@ -1293,6 +1293,13 @@ func parseDescriptors(i *astikit.BytesIterator) (o []*Descriptor, err error) {
 				Tag:    uint8(bs[0]),
 			}
 
+			// The descriptor is part of the loop: one that runs past its end (or whose tag and length don't fit in it)
+			// would take bytes of what follows the loop
+			if i.Offset()+int(d.Length) > offsetEnd {
+				err = fmt.Errorf("astits: descriptor 0x%x ends at offset %d, after the %d the length of its loop allows", d.Tag, i.Offset()+int(d.Length), offsetEnd)
+				return
+			}
+
 			// Parse data
 			if d.Length > 0 {
 				// Unfortunately there's no way to be sure the real descriptor length is the same as the one indicated
